@@ -235,6 +235,18 @@ func Build(a *ref.AP, t *sim.Tape) (mq.Packet, []Op, error) {
 		}
 		ops = rest
 	}
+	if t != nil && t.Bool(1, 2) {
+		// several pairs in ONE AddUserProp call where they happen to be adjacent
+		var merged []Op
+		for _, o := range ops {
+			if n := len(merged); n > 0 && o.Kind == "userprops" && merged[n-1].Kind == "userprops" && t.Bool(2, 3) {
+				merged[n-1].KV = append(append([][2][]byte{}, merged[n-1].KV...), o.KV...)
+				continue
+			}
+			merged = append(merged, o)
+		}
+		ops = merged
+	}
 	if t != nil {
 		for i := range ops {
 			if ops[i].Kind == "userprops" && t.Bool(1, 3) {
@@ -278,7 +290,7 @@ func Build(a *ref.AP, t *sim.Tape) (mq.Packet, []Op, error) {
 			return nil, ops, err
 		}
 		if peek && t.Bool(1, 3) {
-			ReadOnly(p, t.Int(5))
+			ReadOnly(p, t.Int(ReadOnlyKinds))
 		}
 	}
 	return p, ops, nil
@@ -304,7 +316,32 @@ func ReadOnly(p mq.Packet, k int) {
 		if w, ok := p.(mq.HasWellFormed); ok {
 			_ = w.WellFormed()
 		}
-	default:
+	case 4:
 		_ = Observe(p)
+	default:
+		// the packet is handed to ANOTHER object: a PUBLISH also becomes the will
+		// of some CONNECT (which is then written); a SUBSCRIBE's filters and a
+		// packet's user properties are also given to a second packet
+		switch x := p.(type) {
+		case *mq.Publish:
+			c := mq.NewConnect()
+			c.SetWill(x)
+			c.WriteTo(discard{})
+			_ = c.String()
+		case *mq.Subscribe:
+			s2 := mq.NewSubscribe()
+			s2.AddFilters(x.Filters()...)
+			s2.AddFilters(mq.NewTopicFilter("other/filter", mq.OptQoS1))
+			s2.WriteTo(discard{})
+		case *mq.Connect:
+			if w := x.Will(); w != nil {
+				c := mq.NewConnect()
+				c.SetWill(w)
+				c.WriteTo(discard{})
+			}
+		}
 	}
 }
+
+// ReadOnlyKinds is the number of operations ReadOnly knows.
+const ReadOnlyKinds = 6
